@@ -38,6 +38,7 @@ func Spec() *evid.Spec {
 		MinNontrivial: 40,
 		Lanes: []evid.Lane{
 			{Name: "executions", Children: evid.Const(16, 16), Cases: evid.Const(9, 700), TimeoutS: evid.Const(900, 7200), Setup: setup, Run: run},
+			{Name: "staggered", Children: evid.Const(4, 8), Cases: evid.Const(2, 12), TimeoutS: evid.Const(900, 7200), Setup: setup, Run: runStaggered},
 		},
 	}
 }
@@ -253,7 +254,14 @@ func run(c *evid.Case) {
 		decRound = roundOf(hon[0])
 	}
 
-	// stamp every broadcast of every correct operator
+	judge(c, e, cl, w, role, n, slot, maxR, faultFree, post, pattern, byz, decided, decRound, hon)
+}
+
+// judge stamps every broadcast of every correct operator with its virtual emission time and validates it on every
+// other correct operator's own validator.
+func judge(c *evid.Case, e *env, cl *dsim.Cluster, w *vsim.World, role spectypes.BeaconRole, n int, slot phase0.Slot, maxR int,
+	faultFree, post bool, pattern string, byz []int, decided bool, decRound int, hon []*dsim.Operator) {
+	rng := c.Rng
 	var ems []*emitted
 	idxInRound := map[int]int{}
 	curRound := 1
@@ -387,7 +395,6 @@ func run(c *evid.Case) {
 		}
 		c.Sample(map[string]any{"N": n, "role": role.String(), "pattern": pattern, "decision_round": decRound, "broadcasts": sm, "accepted": accepts, "ignored": ignores})
 	}
-	_ = phase0.Slot(0)
 }
 
 func kindOf(em *emitted) string {
@@ -413,4 +420,119 @@ func tail(a []string, n int) []string {
 		return a[len(a)-n:]
 	}
 	return a
+}
+
+// runStaggered is the directed strategy "staggered partial prepare" (committee 7, two active Byzantine operators that
+// lead rounds 1 and 2 and follow the message grammar; every correct message is delivered timely): in round 1 only the
+// correct operator X (leader of round 3) gets a prepare quorum on Va; in round 2 the Byzantine leader proposes Vb, legitimately
+// justified by unprepared round-changes, to the other correct operators, who prepare it; commits are withheld. In round 3 X
+// receives the others' round-changes (prepared on Vb) before its own looped-back round-change (prepared on Va) and, as a
+// correct leader must, proposes Vb. Every correct message is then validated by every correct peer as in the main lane.
+func runStaggered(c *evid.Case) {
+	e := c.Data.(*env)
+	rng := c.Rng
+	n := 7
+	w, val := e.w7, e.w7.Vals[vsim.Known7]
+	role := []spectypes.BeaconRole{spectypes.BNRoleAttester, spectypes.BNRoleSyncCommittee}[rng.Intn(2)]
+	slot := dsim.BaseSlot(role, 1+rng.Intn(2), false)
+	height := specqbft.Height(slot)
+	post := rng.Intn(2) == 0
+	b1, b2, x := qsim.Leader(n, height, 1), qsim.Leader(n, height, 2), qsim.Leader(n, height, 3)
+	byz := []int{int(b1) - 1, int(b2) - 1}
+	cl := dsim.NewCluster(e.d, rng, dsim.Config{N: n, Byz: byz, Mode: "runner", Variants: true})
+	defer cl.Close()
+	if role == spectypes.BNRoleSyncCommittee {
+		p := w.Beacon.EstimatedSyncCommitteePeriodAtEpoch(w.Beacon.EstimatedEpochAtSlot(slot))
+		w.Duties.SyncCommittee.Add(p, val.Index, &eth2apiv1.SyncCommitteeDuty{ValidatorIndex: val.Index}, true)
+	}
+	ks := cl.KS
+	id := dsim.MsgID(ks.ValidatorPK.Serialize(), role)
+	hon := cl.Honest()
+	var X *dsim.Operator
+	var others []*dsim.Operator
+	for _, op := range hon {
+		if op.ID == x {
+			X = op
+		} else {
+			others = append(others, op)
+		}
+	}
+	if X == nil || len(others) != 4 {
+		c.Inconclusive("harness: leader layout unexpected")
+		return
+	}
+	duty := dsim.DutyFor(role, slot)
+	for _, op := range hon {
+		if err := cl.StartDuty(op, duty, "fresh", nil); err != nil {
+			c.Inconclusive("harness: StartDuty failed: " + err.Error())
+			return
+		}
+	}
+	va, vb := dsim.ValueFor(role, slot, 1, false), dsim.ValueFor(role, slot, 2, false)
+	sign := func(from spectypes.OperatorID, m *specqbft.Message, full []byte) *spectypes.SSVMessage {
+		m.Height, m.Identifier = height, id[:]
+		sm := e.d.SignQBFT(ks, from, m)
+		sm.FullData = full
+		return dsim.WrapConsensus(id, sm)
+	}
+	all := func(*dsim.Flight) bool { return true }
+	// round 1: Byzantine leader b1 shows Va to X and two others; the Byzantine prepares go to X only
+	cl.Inject(b1, sign(b1, &specqbft.Message{MsgType: specqbft.ProposalMsgType, Round: 1, Root: qsim.Root(va)}, va), "byz-proposal", X, others[0], others[1])
+	cl.DrainAll(100000)
+	for _, z := range []spectypes.OperatorID{b1, b2} {
+		cl.Inject(z, sign(z, &specqbft.Message{MsgType: specqbft.PrepareMsgType, Round: 1, Root: qsim.Root(va)}, nil), "byz-prepare", X)
+	}
+	cl.DrainAll(100000)
+	for _, op := range hon {
+		_ = cl.FireTimeout(op, role)
+	}
+	cl.DrainAll(100000)
+	// round 2: Byzantine leader b2 proposes Vb, justified by the unprepared round-changes of the four others + one Byzantine
+	var rcs []*specqbft.SignedMessage
+	for _, ev := range cl.AllBroadcasts() {
+		if sm, _ := decode(ev.Msg); sm != nil && sm.Message.MsgType == specqbft.RoundChangeMsgType && sm.Message.Round == 2 && !sm.Message.RoundChangePrepared() {
+			rcs = append(rcs, sm)
+		}
+	}
+	bz := e.d.SignQBFT(ks, b2, &specqbft.Message{MsgType: specqbft.RoundChangeMsgType, Height: height, Round: 2, Identifier: id[:]})
+	rcs = append(rcs, bz)
+	rcj, _ := specqbft.MarshalJustifications(rcs)
+	cl.Inject(b2, sign(b2, &specqbft.Message{MsgType: specqbft.ProposalMsgType, Round: 2, Root: qsim.Root(vb), RoundChangeJustification: rcj}, vb), "byz-proposal", others...)
+	cl.DrainAll(100000)
+	for _, z := range []spectypes.OperatorID{b1, b2} {
+		cl.Inject(z, sign(z, &specqbft.Message{MsgType: specqbft.PrepareMsgType, Round: 2, Root: qsim.Root(vb)}, nil), "byz-prepare", others...)
+	}
+	cl.DrainAll(100000)
+	for _, op := range hon {
+		_ = cl.FireTimeout(op, role)
+	}
+	// round 3: X (correct leader) gets a Byzantine unprepared round-change, then the others' (prepared on Vb), its own last
+	cl.Inject(b1, sign(b1, &specqbft.Message{MsgType: specqbft.RoundChangeMsgType, Round: 3}, nil), "byz-round-change", X)
+	cl.DeliverWhere(func(fl *dsim.Flight) bool { return fl.To == X.ID && fl.From == b1 }, 100000)
+	cl.DeliverWhere(func(fl *dsim.Flight) bool { return fl.To == X.ID && fl.From != X.ID }, 100000)
+	cl.DeliverWhere(all, 200000)
+	prepared := 0
+	proposedVb := false
+	for _, op := range hon {
+		if in := op.Ctrls[role].StoredInstances.FindInstance(height); in != nil && in.State.LastPreparedRound != 0 {
+			prepared++
+		}
+	}
+	for _, ev := range X.Broadcasts {
+		if sm, _ := decode(ev.Msg); sm != nil && sm.Message.MsgType == specqbft.ProposalMsgType && sm.Message.Round == 3 && string(sm.FullData) == string(vb) {
+			proposedVb = true
+		}
+	}
+	c.Count("staggered_executions", 1)
+	if proposedVb {
+		c.Count("staggered_correct_leader_reproposed_higher_prepared_value", 1)
+	}
+	decided := true
+	for _, op := range hon {
+		if in := op.Ctrls[role].StoredInstances.FindInstance(height); in == nil || !in.State.Decided {
+			decided = false
+		}
+	}
+	pattern := fmt.Sprintf("staggered(prepared=%d,reproposed=%v)", prepared, proposedVb)
+	judge(c, e, cl, w, role, n, slot, int(vsim.MaxRound(role)), false, post, pattern, byz, decided || proposedVb, 3, hon)
 }
